@@ -2,7 +2,7 @@
 import json, os, sys, time
 from .common import *
 from .engine import *
-from . import cratebuild, corpus_ctor, corpus_extra
+from . import cratebuild, corpus_ctor, corpus_extra, corpus_serde
 
 ASSUME_COMMON = ["lowercase/uppercase meaning = this toolchain's str::to_lowercase/to_uppercase",
                  "NaN vs bound validators: either verdict accepted (DESIGN section 3)",
@@ -11,7 +11,8 @@ ASSUME_COMMON = ["lowercase/uppercase meaning = this toolchain's str::to_lowerca
 
 
 def ctor_decls(tier, seed):
-    return corpus_ctor.build(tier, seed) + corpus_extra.build_perm(tier, seed) + corpus_extra.build_message(tier, seed) + corpus_extra.build_finite(tier, seed)
+    return (corpus_ctor.build(tier, seed) + corpus_extra.build_perm(tier, seed) + corpus_extra.build_message(tier, seed)
+            + corpus_extra.build_finite(tier, seed) + corpus_serde.build(tier, seed))
 
 
 def fam_of(r):
@@ -33,7 +34,7 @@ def sum_hist(reports, pred):
 def ctor_flow(prop, tier, seed, rule, guards_fn, assumptions=None):
     res = Result(prop, tier, seed)
     res.rule = rule
-    out, by_id = runtime_check(res, "ctor-%s-s%d" % (tier, seed), ctor_decls(tier, seed), [prop])
+    out, by_id = runtime_check(res, "rt-%s-s%d" % (tier, seed), ctor_decls(tier, seed), [prop])
     if out is None:
         return finish(res)
     reports = out[prop]
@@ -206,7 +207,45 @@ def check_c12(tier, seed):
                      "points are asserted by the serde/arb binaries (see coverage.entry_points). A case is a (declaration, obtainability|order-axioms|sort|btreeset) pair.", guards)
 
 
-CHECKS = {"C01": check_c01, "C03": check_c03, "C06": check_c06, "C07": check_c07, "C11": check_c11, "C12": check_c12, "C13": check_c13, "C16": check_c16}
+def check_c04(tier, seed):
+    def guards(res, reports):
+        tot = {}
+        for r in reports:
+            for k, v in r["guards"].items():
+                tot[k] = tot.get(k, 0) + v
+        for f in ("Json", "Ron", "MsgPack"):
+            for p in ("Bare", "VecElem", "OptionSome", "StructField", "MapValue", "MapKey"):
+                for o in ("accepted", "rejected-by-inner-type", "rejected-by-validator", "changed-by-sanitizer"):
+                    res.guard("%s/%s:%s" % (f, p, o), tot.get("%s/%s:%s" % (f, p, o), 0), 1)
+        res.guard("probed", tot.get("probed", 0), 10)
+    return ctor_flow("C04", tier, seed,
+                     "serde corpus (all 12 integer types, f32/f64, String, Vec/Point/Cow/generic; with/without validators, sanitizers, custom errors); documents in JSON, RON and "
+                     "MessagePack: encodings (produced by serde from the inner type) of boundary/valid/invalid values in 6 positions (bare, Vec element, Option, struct field, map "
+                     "value, map key), ~60 wrongly-typed / out-of-range / non-finite / escaped documents per format, and byte-level mutations (truncate at every byte, 3 bit flips per "
+                     "byte, duplicated byte). Oracle: a serde-derived `#[serde(rename=T)] struct RefT(Inner)` parsed from the same bytes, then try_new on every carried value; "
+                     "plus a probing Deserializer (entry point must be deserialize_newtype_struct(T); visit_u64 must not yield a value). A case is a (declaration, format/position, "
+                     "accepted|rejected-by-inner-type|rejected-by-validator|changed-by-sanitizer) triple.", guards)
+
+
+def check_c10(tier, seed):
+    def guards(res, reports):
+        tot = {}
+        for r in reports:
+            for k, v in r["guards"].items():
+                tot[k] = tot.get(k, 0) + v
+        for f in ("Json", "Ron", "MsgPack"):
+            res.guard("%s:roundtrip-checked" % f, tot.get("%s:roundtrip-checked" % f, 0), 100)
+        res.guard("Json:inner-does-not-roundtrip(skipped)", tot.get("Json:inner-does-not-roundtrip(skipped)", 0), 1)
+        for k in ("negative_zero", "subnormal_or_tiny", "non_ascii_string", "escaped_string", "nonfinite_value"):
+            res.guard(k, tot.get(k, 0), 1)
+    return ctor_flow("C10", tier, seed,
+                     "serde corpus declarations with built-in or idempotent sanitizers; for every obtainable value of the document domain: (1) recording Serializer trace must be "
+                     "[newtype_struct(T)] ++ trace(inner); (2) JSON and MessagePack bytes identical to the inner value's encoding, all three formats identical to a serde-derived "
+                     "newtype; (3) if the inner value round-trips in the format (precondition, counted) then from(to(v)) == v bitwise. A case is a (declaration, trace|format:roundtrip|"
+                     "format:precondition-skip) pair.", guards)
+
+
+CHECKS = {"C04": check_c04, "C10": check_c10, "C01": check_c01, "C03": check_c03, "C06": check_c06, "C07": check_c07, "C11": check_c11, "C12": check_c12, "C13": check_c13, "C16": check_c16}
 
 
 def run_check(prop, tier, seed):
